@@ -166,6 +166,122 @@ func filterValue(g *sqlh.Gen, c *sqlh.ColDesc, stored CV) sqlh.GV {
 	}
 }
 
+func perm(g *sqlh.Gen, n int) []int {
+	if n <= 0 {
+		return nil
+	}
+	p := make([]int, n)
+	for i := range p {
+		p[i] = i
+	}
+	for i := n - 1; i > 0; i-- {
+		j := g.R.Intn(i + 1)
+		p[i], p[j] = p[j], p[i]
+	}
+	return p
+}
+
+// shiftFilter returns a filter on the same columns as f whose value tuple differs from f's only by where
+// the boundary between two adjacent values lies (columns in sorted order, as tuples are built):
+// ("ab","c") / ("a","bc"), ("a2", 1) / ("a", 21), (1, "2x") / (12, "x").  Such tuples are different, but any
+// keying of tuples that is not injective (joined text without separators, ...) confuses them.  Only exactly
+// typed, non-NULL values of plain string / integer columns are shifted.  ok=false if f has no such pair.
+func shiftFilter(g *sqlh.Gen, t *sqlh.TableDesc, f sqlh.Filter) (sqlh.Filter, bool) {
+	keys := f.Keys()
+	if _, hasID := f["id"]; hasID { // the row added for the shifted filter gets a fresh id
+		return nil, false
+	}
+	isStr := func(k string) bool {
+		c := t.Col(k)
+		v := f[k]
+		return !c.ImplicitNull && (v.T == "string" || v.T == "Label") && v.T == sqlh.BaseType(c.Ty)
+	}
+	isInt := func(k string) bool {
+		c := t.Col(k)
+		v := f[k]
+		bt := sqlh.BaseType(c.Ty)
+		return v.T == bt && (bt == "int64" || bt == "int32" || bt == "uint32" || bt == "Kind") && v.Z >= 0 && !(c.Primary && c.Name == "id")
+	}
+	digit := func(b byte) bool { return b >= '0' && b <= '9' }
+	for _, i := range perm(g, len(keys)-1) {
+		a, b := keys[i], keys[i+1]
+		out := sqlh.Filter{}
+		for k, v := range f {
+			out[k] = v
+		}
+		va, vb := f[a], f[b]
+		switch {
+		case isStr(a) && isStr(b) && len(vb.S) > 0:
+			va.S, vb.S = va.S+vb.S[:1], vb.S[1:]
+		case isStr(a) && isStr(b) && len(va.S) > 0:
+			va.S, vb.S = va.S[:len(va.S)-1], va.S[len(va.S)-1:]+vb.S
+		case isStr(a) && isInt(b) && len(va.S) > 0 && digit(va.S[len(va.S)-1]) && vb.Z < 1000:
+			d := int64(va.S[len(va.S)-1] - '0')
+			p := int64(10)
+			for p <= vb.Z {
+				p *= 10
+			}
+			va.S, vb.Z = va.S[:len(va.S)-1], d*p+vb.Z
+			if d == 0 {
+				continue
+			}
+		case isStr(a) && isInt(b) && vb.Z >= 10:
+			p := int64(1)
+			for p*10 <= vb.Z {
+				p *= 10
+			}
+			va.S, vb.Z = va.S+fmt.Sprint(vb.Z/p), vb.Z%p
+			if vb.Z < p/10 { // a leading zero would be lost
+				continue
+			}
+		case isInt(a) && isStr(b) && len(vb.S) > 0 && digit(vb.S[0]) && va.Z < 1000:
+			va.Z, vb.S = va.Z*10+int64(vb.S[0]-'0'), vb.S[1:]
+		default:
+			continue
+		}
+		out[a], out[b] = va, vb
+		return out, true
+	}
+	return nil, false
+}
+
+// rowFor appends a stored row that the (exactly typed) filter f selects: a copy of a random row with f's
+// values in f's columns and a fresh id.
+func rowFor(g *sqlh.Gen, t *sqlh.TableDesc, c *Case, f sqlh.Filter) {
+	src := c.Contents[g.R.Intn(len(c.Contents))]
+	row := append([]CV{}, src...)
+	for j := range t.Cols {
+		col := &t.Cols[j]
+		if col.Primary && col.Name == "id" {
+			row[j] = genStored(g, t, col, len(c.Contents)+50)
+		}
+		if v, ok := f[col.Name]; ok {
+			if v.T == "ptr" {
+				v = *v.Elem
+			}
+			switch v.T {
+			case "string", "Label":
+				if !(col.ImplicitNull && v.S == "") {
+					row[j] = CV{K: "str", S: v.S}
+				}
+			case "bytes":
+				row[j] = CV{K: "bytes", S: v.S}
+			case "bool":
+				row[j] = CV{K: "int", Z: map[bool]int64{false: 0, true: 1}[v.B]}
+			case "float64":
+				row[j] = CV{K: "float", Q: v.Q}
+			case "nil", "nilptr", "nilbytes":
+				// keep the copied value: the filter's NULL may not be storable in this column
+			default:
+				if !(col.ImplicitNull && v.Z == 0) {
+					row[j] = CV{K: "int", Z: v.Z}
+				}
+			}
+		}
+	}
+	c.Contents = append(c.Contents, row)
+}
+
 func genCase(g *sqlh.Gen) Case {
 	t := sqlh.Tables[g.R.Intn(len(sqlh.Tables))]
 	c := Case{Table: t.Name, Origin: "generated"}
@@ -212,6 +328,14 @@ func genCase(g *sqlh.Gen) Case {
 		}
 		c.Filters = append(c.Filters, f)
 		c.Callers = append(c.Callers, genCaller(g))
+		// now and then a second caller whose tuple is the boundary-shifted one, and a row it selects
+		if len(f) >= 2 && g.R.Chance(12) {
+			if sf, ok := shiftFilter(g, t, f); ok {
+				c.Filters = append(c.Filters, sf)
+				c.Callers = append(c.Callers, Caller{})
+				rowFor(g, t, &c, sf)
+			}
+		}
 	}
 	return c
 }
